@@ -84,6 +84,22 @@ func c19Child() string {
 	return filepath.Join(filepath.Dir(exe), "crashchild")
 }
 
+// c19PidNS reports whether a child can be run in a fresh PID namespace (unshare -p -f): there the traced process
+// has the same process id in every run, as a service has in a container (pid 1) or after a reboot.
+var c19PidNSOnce struct {
+	done bool
+	ok   bool
+}
+
+func c19PidNS() bool {
+	if !c19PidNSOnce.done {
+		out, err := exec.Command("unshare", "-p", "-f", "sh", "-c", "echo pid=$$").CombinedOutput()
+		c19PidNSOnce.ok = err == nil && strings.TrimSpace(string(out)) == "pid=1"
+		c19PidNSOnce.done = true
+	}
+	return c19PidNSOnce.ok
+}
+
 func c19RunTraced(c *fw.Ctx, dir string, args []string, inject string) (string, error) {
 	logf := filepath.Join(c.Scratch, "strace.log")
 	os.Remove(logf)
@@ -93,7 +109,13 @@ func c19RunTraced(c *fw.Ctx, dir string, args []string, inject string) (string, 
 	}
 	a = append(a, c19Child(), dir)
 	a = append(a, args...)
-	cmd := exec.Command("strace", a...)
+	prog := "strace"
+	if c19PidNS() {
+		// strace is process 1 of a new PID namespace and the child always process 2
+		a = append([]string{"-p", "-f", "strace"}, a...)
+		prog = "unshare"
+	}
+	cmd := exec.Command(prog, a...)
 	cmd.Env = append(os.Environ(), "GOMAXPROCS=1")
 	out, err := cmd.CombinedOutput()
 	b, rerr := os.ReadFile(logf)
@@ -344,6 +366,49 @@ func c19Scenario1(c *fw.Ctx, sc c19Scenario, onlyKill int) {
 					c.Report(fmt.Sprintf("%s/rewrite-after-crash-differs/killed-before:%s#%d", sc.Name, calls[i].name, k),
 						fmt.Sprintf("killed before %q, then key %q was set to a %d-byte value after restart: Get returns %d bytes %q", calls[i].line, key, len(short), len(b), trunc(b, 30)), cas)
 					break
+				}
+			}
+		}
+		// … and a restarted process with the SAME process id (a container's pid 1, a service after a reboot) repeats
+		// the operation from whatever the killed one left behind: it must complete and leave the new state
+		if c19PidNS() {
+			if err := c19Prepare(c, sc, dir); err != nil {
+				c.Infra("prepare: " + err.Error())
+				return
+			}
+			if _, err := c19RunTraced(c, dir, args, fmt.Sprintf("%s:signal=KILL:when=%d", calls[i].name, ord)); err != nil {
+				c.Infra(err.Error())
+				return
+			}
+			rlog, err := c19RunTraced(c, dir, args, "")
+			if err != nil {
+				c.Infra(err.Error())
+				return
+			}
+			c.Eval(1)
+			exit := "?"
+			if m := regexp.MustCompile(`\+\+\+ exited with (\d+) \+\+\+`).FindAllStringSubmatch(rlog, -1); len(m) > 0 {
+				exit = m[len(m)-1][1]
+			}
+			again, _ := c19Observe(dir, keys)
+			if exit != "0" {
+				c.Report(fmt.Sprintf("%s/repeat-with-same-pid-fails/killed-before:%s#%d", sc.Name, calls[i].name, k),
+					fmt.Sprintf("killed before %q; a restarted process with the same process id repeats the operation and it fails (exit status %s)", calls[i].line, exit), cas)
+			} else {
+				for _, key := range keys {
+					if key == "version" && strings.HasPrefix(sc.Name, "transport/") {
+						// a start that died after saving the new number but before saving the new hash may count once more
+						a, _ := strconv.Atoi(strings.TrimPrefix(again[key], "="))
+						p, _ := strconv.Atoi(strings.TrimPrefix(post[key], "="))
+						if a == p+1 {
+							continue
+						}
+					}
+					if again[key] != post[key] {
+						c.Report(fmt.Sprintf("%s/repeat-with-same-pid-differs/killed-before:%s#%d", sc.Name, calls[i].name, k),
+							fmt.Sprintf("killed before %q; a restarted process with the same process id repeated the operation successfully, but key %q reads %s instead of the new value (%s)", calls[i].line, key, c19ValClass(again[key]), c19ValClass(post[key])), cas)
+						break
+					}
 				}
 			}
 		}
